@@ -354,7 +354,7 @@ LEAVES: list[Con] = [
     # partials: include (shared scope)
     _inc("p"),
     _inc("p", ", v: $x", ("v",), ("v",)),
-    _inc("p", " with $y.a as v", ("v",)),
+    _inc("p", " with $x as v", ("v",)),
     _inc("p", " for $a as s", ("s",)),
     _inc("q"),
     _inc("r"),
@@ -593,7 +593,7 @@ CORE_LEAVES = _idx(LEAVES, [
     "{% assign v = $a | first %}",
     "{% include 'p' %}",
     "{% include 'p', v: $x %}",
-    "{% include 'p' with $y.a as v %}",
+    "{% include 'p' with $x as v %}",
     "{% include 'p' for $a as s %}",
     "{% include 'q' %}",
     "{% include 'r' %}",
